@@ -96,7 +96,7 @@ pub const CUBE_PATTERNS: &[&str] = &[
     // non-ASCII letters inside rule tokens
     "/\u{6587}ads^", "/\u{e9}/bar", "bar\u{e9}^", "||ads.net/\u{6587}ads",
     // full regex and empty
-    "/ads[a-z]*\\/bar/", "/^https?:\\/\\/ads\\./", "/\\/ADS/", "*", "",
+    "/ads[a-z]*\\/bar/", "/^https?:\\/\\/ads\\./", "/\\/ADS/", "/ads[0-/", "*", "",
 ];
 
 pub const CUBE_OPTIONS: &[&str] = &[
